@@ -691,6 +691,7 @@ fn judge_c16(c: &[u64], raw: &[i128]) -> Verdict {
         272 | 273 => {
             if a.panic { return (Some("GS base access panicked"), true); }
             if p.fid == 272 && a.result != [p.prior(8, 0) as i128] { return (Some("GS::read_base must return GS.base"), true); }
+            if p.fid == 273 && a.result == [0xbad0_f5ba_5e] { return (Some("GS::write_base changed FS.base: it must write GS.base and nothing else"), true); }
             if p.fid == 273 && p.final_of(&a, 8, 0) != Some(p.args[0]) { return (Some("GS::write_base must store GS.base"), true); }
             (None, true)
         }
